@@ -68,6 +68,7 @@ struct Stmt {
   string mkdd;   // this statement's command writes that dyndep file
   int ver = 1, rspver = 1;
   bool badrspdir = false;  // rspfile in a directory that cannot be created
+  string genlvl;           // "": the generator flag (gen) sits on the rule; "build": set on the build statement; "cleared": the rule says generator = 1, the statement clears it (gen = false)
   vector<string> outp;     // what the command prints, as a list of piece kinds (see RenderOutput)
   vector<string> AllOuts() const {
     vector<string> r = outs;
@@ -104,6 +105,7 @@ static Stmt ParseStmt(const JV& j) {
   s.ver = (int)j["ver"].num(1); s.rspver = (int)j["rspver"].num(1);
   s.badrspdir = j["badrspdir"].boolean();
   s.outp = j["outp"].strs();
+  s.genlvl = j["genlvl"].str();
   return s;
 }
 
@@ -293,7 +295,7 @@ static string RenderManifest(const Scenario& sc) {
     m += "rule r" + to_string(s.id) + "\n";
     m += "  command = run e" + to_string(s.id) + " v" + to_string(s.ver) + "\n";
     if (s.restat) m += "  restat = 1\n";
-    if (s.gen) m += "  generator = 1\n";
+    if ((s.gen && s.genlvl.empty()) || s.genlvl == "cleared") m += "  generator = 1\n";
     if (s.deps == "depfile" || s.deps == "gcc") m += "  depfile = " + s.outs[0] + ".d\n";
     if (s.deps == "gcc") m += "  deps = gcc\n";
     if (s.deps == "msvc") m += "  deps = msvc\n";
@@ -310,6 +312,8 @@ static string RenderManifest(const Scenario& sc) {
     m += "\n";
     if (!s.pool.empty()) m += "  pool = " + s.pool + "\n";
     if (!s.dd.empty()) m += "  dyndep = " + s.dd + "\n";
+    if (s.gen && s.genlvl == "build") m += "  generator = 1\n";
+    if (s.genlvl == "cleared") m += "  generator =\n";
   }
   return m;
 }
